@@ -120,23 +120,23 @@ Families == DOMAIN Alpha
 Table == <<
   <<"uri.ParseURI",           "uri",       2, 4, 5, 0>>,
   <<"uri.Parse.emptyHost",    "uri",       2, 3, 4, 0>>,
-  <<"uri.Parse.host",         "uri",       2, 3, 4, 0>>,
+  <<"uri.Parse.host",         "uri",       2, 3, 5, 0>>,
   <<"uri.Update",             "uri",       2, 3, 4, 0>>,
   <<"uri.UpdateBytes.zero",   "uri",       2, 3, 4, 0>>,
   <<"req.SetRequestURI",      "uri",       2, 3, 4, 0>>,
   <<"req.SetRequestURI.host", "uri",       2, 3, 4, 0>>,
-  <<"args.ParseBytes",        "args",      2, 4, 5, 0>>,
+  <<"args.ParseBytes",        "args",      2, 4, 6, 0>>,
   <<"req.PostArgs",           "args",      2, 3, 4, 0>>,
   <<"cookie.Parse",           "cookie",    2, 4, 5, 0>>,
   <<"resp.SetCookie",         "cookie",    2, 3, 4, 0>>,
-  <<"reqhdr.Cookie",          "reqcookie", 2, 5, 6, 0>>,
+  <<"reqhdr.Cookie",          "reqcookie", 2, 5, 7, 0>>,
   <<"range.cl0",              "range",     2, 4, 5, 0>>,
-  <<"range.cl1",              "range",     2, 4, 5, 0>>,
+  <<"range.cl1",              "range",     2, 4, 6, 0>>,
   <<"range.cl2",              "range",     2, 4, 5, 0>>,
   <<"date.IfModifiedSince",   "date",      2, 3, 5, 0>>,
   <<"cookie.Expires",         "date",      2, 3, 5, 0>>,
-  <<"ctype.Boundary",         "ctype",     2, 4, 5, 0>>,
-  <<"mp.MultipartForm",       "mpbody",    3, 5, 6, 0>>,
+  <<"ctype.Boundary",         "ctype",     2, 4, 6, 0>>,
+  <<"mp.MultipartForm",       "mpbody",    3, 5, 7, 0>>,
   <<"mp.ParseMultipartForm",  "mpbody",    3, 4, 5, 0>>,
   <<"trailer.SetTrailers",    "trailer",   2, 5, 6, 0>>,
   <<"reqhdr.Set.Trailer",     "trailer",   2, 4, 5, 0>>,
@@ -151,7 +151,7 @@ Table == <<
   <<"http1.resp.firstline",   "statline",  2, 4, 5, 0>>,
   <<"http1.ext.ReadTrailer",  "rtrailer",  2, 4, 5, 0>>,
   <<"http1.resp.Read.contentLength", "clen", 2, 4, 5, 7>>,
-  <<"http1.ext.ReadBody.chunked", "chunked", 2, 4, 5, 7>>
+  <<"http1.ext.ReadBody.chunked", "chunked", 2, 4, 6, 7>>
 >>
 
 Range(s) == {s[i] : i \in DOMAIN s}
